@@ -1328,7 +1328,7 @@ class TexArgs(list):
         >>> arguments[4]
         BraceGroup('arg4')
         """
-        for arg in args:
+        for arg in list(args):  # a snapshot: ``args`` may be this very list
             self.append(arg)
 
     def insert(self, i, arg):
